@@ -1,0 +1,228 @@
+//go:build verif
+
+package internal
+
+// Contracts for the epoll poller (properties C03, C01, C05).
+
+//@ pred armed(s *Slot, flag PollerEvent) = s.Events & flag == flag
+
+//@ func (*poller).Pending
+//@   pure
+//@ func (*EventFd).Fd
+//@   pure
+//@ func (*EventFd).Slot
+//@   pure
+
+//@ func (*Slot).Set
+//@   prop C01
+//@   requires 0 <= et && et < MaxEvent
+//@   ensures [stored] s.Handlers[et] == h
+//@   ensures [other] forall k :: 0 <= k && k < 2 && k != int(et) ==> s.Handlers[k] == old(s.Handlers[k])
+//@   modifies s.Handlers
+
+//@ func (*poller).setRW
+//@   prop C03, C01
+//@   arith bv
+//@   requires slot != nil && (flag == PollerReadEvent || flag == PollerWriteEvent)
+//@   ensures [armed] result == nil ==> armed(slot, flag) && slot.Events == old(slot.Events) | flag
+//@   ensures [count] result == nil ==> p.pending == old(p.pending) + (old(armed(slot, flag)) ? 0 : 1)
+//@   // a registration that fails is not counted and leaves no interest behind
+//@   ensures [failed] result != nil ==> slot.Events == old(slot.Events) && p.pending == old(p.pending)
+//@   modifies p.pending, slot.Events
+
+//@ func (*poller).SetRead
+//@   prop C03, C01
+//@   requires slot != nil
+//@   ensures [armed] result == nil ==> armed(slot, PollerReadEvent) && slot.Events == old(slot.Events) | PollerReadEvent
+//@   ensures [count] result == nil ==> p.pending == old(p.pending) + (old(armed(slot, PollerReadEvent)) ? 0 : 1)
+//@   ensures [failed] result != nil ==> slot.Events == old(slot.Events) && p.pending == old(p.pending)
+//@   modifies p.pending, slot.Events
+
+//@ func (*poller).SetWrite
+//@   prop C03, C01
+//@   requires slot != nil
+//@   ensures [armed] result == nil ==> armed(slot, PollerWriteEvent) && slot.Events == old(slot.Events) | PollerWriteEvent
+//@   ensures [count] result == nil ==> p.pending == old(p.pending) + (old(armed(slot, PollerWriteEvent)) ? 0 : 1)
+//@   ensures [failed] result != nil ==> slot.Events == old(slot.Events) && p.pending == old(p.pending)
+//@   modifies p.pending, slot.Events
+
+//@ func (*poller).DelRead
+//@   prop C03, C01
+//@   requires slot != nil
+//@   // whatever epoll_ctl answers, the interest is gone and no longer counted
+//@   ensures [cleared] slot.Events == old(slot.Events) &^ PollerReadEvent
+//@   ensures [count] p.pending == old(p.pending) - (old(armed(slot, PollerReadEvent)) ? 1 : 0)
+//@   modifies p.pending, slot.Events
+
+//@ func (*poller).DelWrite
+//@   prop C03, C01
+//@   requires slot != nil
+//@   ensures [cleared] slot.Events == old(slot.Events) &^ PollerWriteEvent
+//@   ensures [count] p.pending == old(p.pending) - (old(armed(slot, PollerWriteEvent)) ? 1 : 0)
+//@   ensures [quiet] !old(armed(slot, PollerWriteEvent)) ==> result == nil
+//@   modifies p.pending, slot.Events
+
+//@ func (*poller).Del
+//@   prop C03, C01
+//@   requires slot != nil
+//@   ensures [cleared] slot.Events == old(slot.Events) &^ (PollerReadEvent | PollerWriteEvent)
+//@   ensures [count] p.pending == old(p.pending) - (old(armed(slot, PollerReadEvent)) ? 1 : 0) - (old(armed(slot, PollerWriteEvent)) ? 1 : 0)
+//@   ensures [quiet] !old(armed(slot, PollerWriteEvent)) ==> result == nil
+//@   modifies p.pending, slot.Events
+
+// Fields of the poller that are set once by NewPoller: their values survive call-outs to
+// user handlers (checked statically: no other function stores to them).
+//@ immutable [C01,C03,C05] poller.fd poller.waker poller.events EventFd.fd constructors NewPoller, NewEventFd
+
+// posts and pending are shared with goroutines that call Post.
+//@ guarded [C05] poller.posts by lck constructors NewPoller
+//@ guarded [C05] poller.pending by lck constructors NewPoller
+//@ guarded [C05] poller.spare by lck constructors NewPoller
+
+//@ pred pInv(p *poller) = p.waker != nil && len(p.events) > 0 && len(p.posts) <= 1<<40 &&
+//@   (forall j :: 0 <= j && j < len(p.posts) ==> p.posts[j] != nil)
+
+//@ func (*poller).Post
+//@   prop C05, C03
+//@   requires pInv(p) && handler != nil
+//@   // the handler is queued (after every handler already queued) before the loop is woken
+//@   assert call Write: len(p.posts) == old(len(p.posts)) + 1 && p.posts[old(len(p.posts))] == handler
+//@   ensures [queued] len(p.posts) == old(len(p.posts)) + 1 && p.posts[old(len(p.posts))] == handler
+//@   ensures [order] forall j :: 0 <= j && j < old(len(p.posts)) ==> p.posts[j] == old(p.posts[j])
+//@   ensures [count] p.pending == old(p.pending) + 1
+
+//@ func (*poller).Posted
+//@   prop C05
+//@   requires pInv(p)
+//@   ensures [exact] result == len(p.posts)
+//@   modifies nothing
+
+// Rely of dispatch on posted handlers (user code): when a handler returns the poller is in a
+// consistent state, and the queue dispatch swapped out (no longer referenced from the heap)
+// has not been written.
+//@ func fnparam:(*poller).dispatch.handler
+//@   trusted
+//@   ensures pInv(p)
+//@   ensures forall j :: 0 <= j && j < len(posts) ==> posts[j] == old(posts[j])
+
+//@ func (*poller).dispatch
+//@   prop C05, C03
+//@   requires pInv(p)
+//@   ensures [inv] pInv(p)
+//@   loop 1 invariant pInv(p) && len(p.posts) == old(len(p.posts)) && ptr(p.posts) == old(ptr(p.posts)) &&
+//@          (forall j :: 0 <= j && j < len(p.posts) ==> p.posts[j] == old(p.posts[j]))
+//@   // handlers still to run are the entry queue's, untouched, in order
+//@   loop 2 invariant pInv(p) && -1 <= rangeindex && rangeindex < max(len(posts), 1) && len(posts) == old(len(p.posts)) &&
+//@          (forall j :: rangeindex < j && j < len(posts) ==> posts[j] == old(p.posts[j]))
+//@   // the queue is empty as soon as it has been swapped out: handlers posted from now on run in the next cycle
+//@   assert call Unlock#1: len(p.posts) == 0 && alias(posts, old(p.posts))
+//@   // exactly once, in posting order: iteration i runs the i-th handler of the entry queue
+//@   assert call handler: handler == old(p.posts[i]) && handler != nil
+
+// Rely of Poll on the I/O handlers it dispatches (library reactors that end in user
+// callbacks): on return the poller is consistent and the slot of the batch entry being
+// processed still satisfies the slot invariant "an armed direction has a handler".
+//@ func fnparam:(*poller).Poll.Handlers
+//@   trusted
+//@   ensures pInv(p)
+//@   ensures armed(slot, PollerWriteEvent) ==> slot.Handlers[1] != nil
+
+//@ func (*poller).Poll
+//@   prop C01, C03
+//@   arith bv
+//@   requires pInv(p)
+//@   // kernel: epoll_wait returns at most maxevents entries, each carrying the *Slot that was
+//@   // registered; an armed direction always has a handler (precondition of SetRead/SetWrite)
+//@   assume def n: n <= len(p.events)
+//@   assume def slot: slot != nil && (armed(slot, PollerReadEvent) ==> slot.Handlers[0] != nil) &&
+//@          (armed(slot, PollerWriteEvent) ==> slot.Handlers[1] != nil)
+//@   loop 1 invariant pInv(p) && 0 <= i && n <= len(p.events)
+//@   // readable, hang-up or error on a descriptor with a read armed completes the read;
+//@   // likewise for writes: no armed operation is left behind when the peer goes away
+//@   assert at "events&slot.Events&PollerReadEvent == PollerReadEvent": (event.Mask & 25 != 0 && armed(slot, PollerReadEvent)) ==>
+//@          events&slot.Events&PollerReadEvent == PollerReadEvent
+//@   assert at "events&slot.Events&PollerWriteEvent == PollerWriteEvent": (events & 28 != 0 && armed(slot, PollerWriteEvent)) ==>
+//@          events&slot.Events&PollerWriteEvent == PollerWriteEvent
+//@   // a handler runs only for a direction that is armed right now (stale entries are filtered),
+//@   // and its interest is removed before it runs
+//@   assert call DelRead: armed(slot, PollerReadEvent)
+//@   assert call DelWrite: armed(slot, PollerWriteEvent)
+//@   assert call Handlers#1: !armed(slot, PollerReadEvent)
+//@   assert call Handlers#2: !armed(slot, PollerWriteEvent)
+//@   ensures [timeout] n == 0 && timeoutMs >= 0 && err == nil ==> false
+//@   ensures [count] err == nil ==> n >= 0
+//@   ensures [inv] pInv(p)
+
+// internal.Poller has a single implementation on this platform.
+//@ devirtualize Poller poller
+
+// A slot's descriptor is fixed when its owner is constructed.
+//@ immutable [C01,C03,C13] Slot.Fd constructors newFile, NewEventFd, NewPipe, NewAsyncAdapter, NewUDPPeer, NewTimer, Listen, NewPacketConn
+
+// Address conversion helpers: outside the claim (type switches over net.Addr implementations);
+// they allocate and return, and write nothing that existed before.
+//@ func ToSockaddr
+//@   trusted
+//@   modifies nothing
+//@ func FromSockaddr
+//@   trusted
+//@   modifies nothing
+//@ func SocketAddress
+//@   trusted
+//@   modifies nothing
+
+// --- timerfd based timer (C04, C03) ------------------------------------------------------------
+
+//@ immutable [C04,C03] Timer.fd Timer.poller constructors NewTimer
+
+//@ pred tiInv(t *Timer) = t.poller != nil && pInv(t.poller) && t.slot.Fd == t.fd && 0 <= t.fd
+
+//@ func ext:golang.org/x/sys/unix.NsecToTimespec
+//@   trusted
+//@   ensures result.Sec * 1000000000 + result.Nsec == nsec && 0 <= result.Nsec && result.Nsec < 1000000000
+//@   modifies nothing
+
+//@ func ext:golang.org/x/sys/unix.TimerfdSettime
+//@   trusted
+//@   modifies nothing
+
+//@ func fnparam:(*Timer).Set$1.cb
+//@   trusted
+//@   ensures pInv(t.poller)
+
+// The handler the poller dispatches when the timerfd is readable. The kernel's expiration
+// count is the oracle for "the delay has elapsed": a stale batch entry for a timer that was
+// cancelled and re-armed in the same poll cycle reads EAGAIN and must not run the callback.
+//@ func (*Timer).Set$1
+//@   prop C04
+//@   requires t != nil && tiInv(t) && cb != nil
+//@   remember after call syscall.Read: expired = (result0 == 8 && result1 == nil)
+//@   assert call cb: expired
+
+//@ func (*Timer).Unset
+//@   prop C04, C03
+//@   requires tiInv(t)
+//@   ensures [idle] !old(armed(&t.slot, PollerReadEvent)) ==> result == nil && t.slot.Events == old(t.slot.Events) && t.poller.pending == old(t.poller.pending)
+//@   ensures [disarmed] result == nil ==> !armed(&t.slot, PollerReadEvent)
+//@   ensures [failed] result != nil ==> t.slot.Events == old(t.slot.Events) && t.poller.pending == old(t.poller.pending)
+//@   ensures [count] result == nil && old(armed(&t.slot, PollerReadEvent)) ==> t.poller.pending < old(t.poller.pending)
+//@   // disarming stops the kernel timer first: expiration zero, interval zero
+//@   assert call TimerfdSettime: arg0 == t.fd && arg2.Value.Sec == 0 && arg2.Value.Nsec == 0 && arg2.Interval.Sec == 0 && arg2.Interval.Nsec == 0
+
+//@ func (*Timer).Set
+//@   prop C04, C03
+//@   requires tiInv(t) && cb != nil
+//@   // exactly the requested delay, one shot
+//@   assert call TimerfdSettime#2: arg0 == t.fd && arg2.Value.Sec * 1000000000 + arg2.Value.Nsec == int64(dur) &&
+//@          arg2.Interval.Sec == 0 && arg2.Interval.Nsec == 0
+//@   ensures [armed] result == nil ==> armed(&t.slot, PollerReadEvent) && t.slot.Handlers[0] != nil
+//@   ensures [count] result == nil && !old(armed(&t.slot, PollerReadEvent)) ==> t.poller.pending == old(t.poller.pending) + 1
+//@   ensures [failed] result != nil && !old(armed(&t.slot, PollerReadEvent)) ==> !armed(&t.slot, PollerReadEvent) && t.poller.pending == old(t.poller.pending)
+
+//@ func (*Timer).Close
+//@   prop C04, C13, C03
+//@   requires tiInv(t)
+//@   assert call syscall.Close: arg0 == t.fd
+//@   // whatever the kernel answers, a closed timer is not armed and not counted as pending
+//@   ensures [disarmed] !armed(&t.slot, PollerReadEvent)
+//@   ensures [count] t.poller.pending == old(t.poller.pending) - (old(armed(&t.slot, PollerReadEvent)) ? 1 : 0) - (old(armed(&t.slot, PollerWriteEvent)) ? 1 : 0)
